@@ -128,6 +128,8 @@ def getattr_(ev: Ev, base, attr, node):
             return VFunc("bound", (base, attr), attr)
         return VFunc("bound", (base, attr), attr)
     if isinstance(base, VGlobal):
+        if base.name == "os" and attr == "sep":
+            return VStr("/")      # POSIX (A-posix)
         return VGlobal(base.name + "." + attr)
     if isinstance(base, VClass):
         if ":" in base.name:
@@ -410,7 +412,11 @@ def eval_args(ev, node):
     args = []
     for a in node.args:
         if isinstance(a, ast.Starred):
-            args.extend(ev.iter_concrete(ev.expr(a.value), a))
+            sv = ev.expr(a.value)
+            if isinstance(sv, VRef) and isinstance(ev.st.obj(sv), ListObj) and not z3.is_int_value(z3.simplify(ev.st.obj(sv).length)):
+                args.append(VFunc("starred", sv, "*args"))   # a list of symbolic length spliced into the call: for stubs
+            else:
+                args.extend(ev.iter_concrete(sv, a))
         else:
             args.append(ev.expr(a))
     kwargs = {}
